@@ -13,31 +13,21 @@ nothing prunes the records it created).
 namespace AnySync.PubSub
 open Generated.PubSub
 
-/-! ### small association-list helpers -/
+/-! ### small association-list helpers (a Go map as a list of key/value pairs) -/
 
-def alookup {β : Type} (k : String) : List (String × β) → Option β
+def alookup {κ β : Type} [DecidableEq κ] (k : κ) : List (κ × β) → Option β
   | [] => none
   | (k', v) :: rest => if k' = k then some v else alookup k rest
 
-def aset {β : Type} (k : String) (v : β) : List (String × β) → List (String × β)
+/-- `m[k] = v`: replace in place, else append -/
+def aset {κ β : Type} [DecidableEq κ] (k : κ) (v : β) : List (κ × β) → List (κ × β)
   | [] => [(k, v)]
   | (k', v') :: rest => if k' = k then (k, v) :: rest else (k', v') :: aset k v rest
 
-def aerase {β : Type} (k : String) : List (String × β) → List (String × β)
+/-- `delete(m, k)` -/
+def aerase {κ β : Type} [DecidableEq κ] (k : κ) : List (κ × β) → List (κ × β)
   | [] => []
-  | (k', v') :: rest => if k' = k then rest else (k', v') :: aerase k rest
-
-def nlookup {β : Type} (k : Nat) : List (Nat × β) → Option β
-  | [] => none
-  | (k', v) :: rest => if k' = k then some v else nlookup k rest
-
-def nset {β : Type} (k : Nat) (v : β) : List (Nat × β) → List (Nat × β)
-  | [] => [(k, v)]
-  | (k', v') :: rest => if k' = k then (k, v) :: rest else (k', v') :: nset k v rest
-
-def nerase {β : Type} (k : Nat) : List (Nat × β) → List (Nat × β)
-  | [] => []
-  | (k', v') :: rest => if k' = k then rest else (k', v') :: nerase k rest
+  | (k', v') :: rest => if k' = k then aerase k rest else (k', v') :: aerase k rest
 
 /-! ### identities -/
 
@@ -53,6 +43,9 @@ structure StreamRec where
   account : String
   total : Nat
   bySpace : List (String × List String)
+
+/-- `strm.bySpace[space]` (nil map entry = no patterns) -/
+def StreamRec.pats (r : StreamRec) (space : String) : List String := (alookup space r.bySpace).getD []
 
 /-- a stream registered in the pool -/
 structure PoolStream where
@@ -131,8 +124,8 @@ def pruneSpace (remote : List (String × Trie)) (space : String) : List (String 
 
 /-- `pruneStream` -/
 def pruneStream (streams : List (Nat × StreamRec)) (sid : Nat) : List (Nat × StreamRec) :=
-  match nlookup sid streams with
-  | some r => if r.total = 0 then nerase sid streams else streams
+  match alookup sid streams with
+  | some r => if r.total = 0 then aerase sid streams else streams
   | none => streams
 
 end NodeSt
@@ -159,6 +152,39 @@ def acceptLoop (capSpace capStream : Nat) :
 
 namespace NodeSt
 
+/-- undo of one accepted pattern when the stream vanished before tagging (`removeStreamPattern`) -/
+def rollbackStep (space : String) (acc : StreamRec × Trie) (p : String) : StreamRec × Trie :=
+  ((removeStreamPattern acc.1 acc.2 space p).1, (removeStreamPattern acc.1 acc.2 space p).2.1)
+
+/-- the part of `handleSubscribe` that runs under `remoteMu` once all checks passed: records are
+created, the accept loop runs, tags are registered (or the interest rolled back when the stream is
+gone), and — repaired code — empty records are dropped when nothing was accepted.
+Returns the new state and the rejected patterns. -/
+def subscribeCore (s : NodeSt) (sid : Nat) (space : String) (topics : List String) (acct : String) :
+    NodeSt × List String :=
+  let t := (s.getTrie space).getD Trie.empty
+  let rec0 := (alookup sid s.streams).getD ⟨acct, 0, []⟩
+  let res := acceptLoop s.capSpace s.capStream topics (rec0.pats space) rec0.total t []
+  let pats := res.1
+  let t' := res.2.2.1
+  let accepted := res.2.2.2.1
+  let rec1 : StreamRec := { rec0 with total := res.2.1, bySpace := aset space pats rec0.bySpace }
+  let s1 : NodeSt := { s with remote := aset space t' s.remote, streams := aset sid rec1 s.streams }
+  let s2 : NodeSt :=
+    if accepted.isEmpty then
+      -- repaired code: drop the empty records created above
+      let rec2 : StreamRec := if pats.isEmpty then { rec1 with bySpace := aerase space rec1.bySpace } else rec1
+      { s1 with streams := pruneStream (aset sid rec2 s1.streams) sid, remote := pruneSpace s1.remote space }
+    else
+      match s1.addTags sid (accepted.map (interestTag space)) with
+      | some s' => s'
+      | none =>
+        -- the stream vanished: undo the interest
+        let rb := accepted.foldl (rollbackStep space) (rec1, t')
+        { s1 with streams := pruneStream (aset sid rb.1 s1.streams) sid,
+                  remote := pruneSpace (aset space rb.2 s1.remote) space }
+  (s2, res.2.2.2.2)
+
 /-- `handleSubscribe` for a frame read from stream `sid` (peer / identity are the stream's). -/
 def handleSubscribe (s : NodeSt) (sid : Nat) (peer ident : String) (space : String) (topics : List String) :
     NodeSt × Obs :=
@@ -170,39 +196,18 @@ def handleSubscribe (s : NodeSt) (sid : Nat) (peer ident : String) (space : Stri
     else if !(topics.all validatePattern) then (s, { statuses := s.sendStatus peer .invalidTopic space topics false })
     else if !s.isMember space acct then (s, { statuses := s.sendStatus peer .notAMember space topics false })
     else
-      let t := (s.getTrie space).getD Trie.empty
-      let rec0 := (nlookup sid s.streams).getD ⟨acct, 0, []⟩
-      let pats0 := (alookup space rec0.bySpace).getD []
-      let (pats, total, t', accepted, rejected) := acceptLoop s.capSpace s.capStream topics pats0 rec0.total t []
-      let rec1 : StreamRec := { rec0 with total := total, bySpace := aset space pats rec0.bySpace }
-      let s1 : NodeSt := { s with remote := aset space t' s.remote, streams := nset sid rec1 s.streams }
-      let s2 : NodeSt :=
-        if accepted.isEmpty then
-          -- repaired code: drop the empty records created above
-          let rec2 : StreamRec := if pats.isEmpty then { rec1 with bySpace := aerase space rec1.bySpace } else rec1
-          let streams2 := pruneStream (nset sid rec2 s1.streams) sid
-          { s1 with streams := streams2, remote := pruneSpace s1.remote space }
-        else
-          match s1.addTags sid (accepted.map (interestTag space)) with
-          | some s' => s'
-          | none =>
-            -- the stream vanished: undo the interest
-            let (rec2, t2) := accepted.foldl (fun (acc : StreamRec × Trie) p =>
-              let r := removeStreamPattern acc.1 acc.2 space p; (r.1, r.2.1)) (rec1, t')
-            { s1 with streams := pruneStream (nset sid rec2 s1.streams) sid,
-                      remote := pruneSpace (aset space t2 s1.remote) space }
-      let st := if rejected.isEmpty then [] else s.sendStatus peer .tooManyTopics space rejected false
-      (s2, { statuses := st })
+      let r := s.subscribeCore sid space topics acct
+      (r.1, { statuses := if r.2.isEmpty then [] else s.sendStatus peer .tooManyTopics space r.2 false })
 
 /-- `handleUnsubscribe` -/
 def handleUnsubscribe (s : NodeSt) (sid : Nat) (space : String) (topics : List String) : NodeSt :=
-  match nlookup sid s.streams, s.getTrie space with
+  match alookup sid s.streams, s.getTrie space with
   | some rec0, some t =>
-    let patterns := if topics.isEmpty then (alookup space rec0.bySpace).getD [] else topics
+    let patterns := if topics.isEmpty then rec0.pats space else topics
     let (rec1, t1, removed) := patterns.foldl (fun (acc : StreamRec × Trie × List String) p =>
         let r := removeStreamPattern acc.1 acc.2.1 space p
         (r.1, r.2.1, if r.2.2 then acc.2.2 ++ [p] else acc.2.2)) (rec0, t, [])
-    let s1 : NodeSt := { s with streams := pruneStream (nset sid rec1 s.streams) sid,
+    let s1 : NodeSt := { s with streams := pruneStream (aset sid rec1 s.streams) sid,
                                 remote := pruneSpace (aset space t1 s.remote) space }
     if removed.isEmpty then s1 else s1.removeTags sid (removed.map (interestTag space))
   | _, _ => s
@@ -257,31 +262,40 @@ def handlePublish (s : NodeSt) (peer ident : String) (space topic msgIdent : Str
 /-- the pool removes the stream (its tags go with it), then `onStreamClose` runs -/
 def closeStream (s : NodeSt) (sid : Nat) : NodeSt :=
   let s1 : NodeSt := { s with pool := s.pool.filter (·.sid ≠ sid) }
-  match nlookup sid s1.streams with
+  match alookup sid s1.streams with
   | none => s1
   | some r =>
     let remote := r.bySpace.foldl (fun (rem : List (String × Trie)) (sp : String × List String) =>
       match alookup sp.1 rem with
       | none => rem
       | some t =>
-        let t' := sp.2.foldl (fun (t : Trie) p => (t.remove p).1) t
+        let t' := t.removeAll sp.2
         pruneSpace (aset sp.1 t' rem) sp.1) s1.remote
-    { s1 with remote := remote, streams := nerase sid s1.streams }
+    { s1 with remote := remote, streams := aerase sid s1.streams }
 
-/-- `evictSpaceStreams` -/
+/-- body of the `for streamId, strm := range s.streams` loops of `evictSpaceStreams` / `CloseSpace`
+for one stream that is hit: the space entry goes, `total` drops by its size -/
+def dropSpaceRec (space : String) (r : StreamRec) : StreamRec :=
+  { r with total := r.total - (r.pats space).length, bySpace := aerase space r.bySpace }
+
+/-- `evictSpaceStreams`: every stream that has patterns in the space and satisfies `evict` loses them
+(record entry, trie references if the space has a trie, routing tags); a record whose `total` reaches
+zero is deleted; finally the space trie is pruned. The iterations of the Go loop are independent
+(each touches only its own stream), so the loop is rendered as one pass over the stream list. -/
 def evictSpaceStreams (s : NodeSt) (space : String) (evict : StreamRec → Bool) : NodeSt :=
-  let step := fun (acc : NodeSt) (e : Nat × StreamRec) =>
-    let pats := (alookup space e.2.bySpace).getD []
-    if pats.isEmpty || !evict e.2 then acc
-    else
-      let remote := match alookup space acc.remote with
-        | some t => aset space (pats.foldl (fun (t : Trie) p => (t.remove p).1) t) acc.remote
-        | none => acc.remote
-      let r' : StreamRec := { e.2 with total := e.2.total - pats.length, bySpace := aerase space e.2.bySpace }
-      let streams := if r'.total = 0 then nerase e.1 acc.streams else nset e.1 r' acc.streams
-      ({ acc with remote := remote, streams := streams }).removeTags e.1 (pats.map (interestTag space))
-  let s1 := s.streams.foldl step s
-  { s1 with remote := pruneSpace s1.remote space }
+  let hit := fun (e : Nat × StreamRec) => !(e.2.pats space).isEmpty && evict e.2
+  let victims := s.streams.filter hit
+  let streams' := s.streams.filterMap (fun e =>
+    if hit e then (if (dropSpaceRec space e.2).total = 0 then none else some (e.1, dropSpaceRec space e.2))
+    else some e)
+  let remote' := match alookup space s.remote with
+    | some t => aset space (victims.foldl (fun (t : Trie) e => t.removeAll (e.2.pats space)) t) s.remote
+    | none => s.remote
+  let pool' := s.pool.map (fun st =>
+    match alookup st.sid victims with
+    | some r => { st with tags := st.tags.filter (fun tg => !((r.pats space).map (interestTag space)).contains tg) }
+    | none => st)
+  { s with streams := streams', remote := pruneSpace remote' space, pool := pool' }
 
 def evictMember (s : NodeSt) (space acct : String) : NodeSt :=
   s.evictSpaceStreams space (fun r => r.account = acct)
@@ -289,17 +303,10 @@ def evictMember (s : NodeSt) (space acct : String) : NodeSt :=
 def revalidate (s : NodeSt) (space : String) : NodeSt :=
   s.evictSpaceStreams space (fun r => !s.isMember space r.account)
 
-/-- serving-side part of `CloseSpace` -/
+/-- serving-side part of `CloseSpace`: `delete(s.remote, spaceId)`, then the same per-stream loop body
+as `evictSpaceStreams` for every stream with patterns in the space (no trie is left to touch) -/
 def closeSpace (s : NodeSt) (space : String) : NodeSt :=
-  let s0 : NodeSt := { s with remote := aerase space s.remote }
-  let step := fun (acc : NodeSt) (e : Nat × StreamRec) =>
-    let pats := (alookup space e.2.bySpace).getD []
-    if pats.isEmpty then acc
-    else
-      let r' : StreamRec := { e.2 with total := e.2.total - pats.length, bySpace := aerase space e.2.bySpace }
-      let streams := if r'.total = 0 then nerase e.1 acc.streams else nset e.1 r' acc.streams
-      ({ acc with streams := streams }).removeTags e.1 (pats.map (interestTag space))
-  s.streams.foldl step s0
+  ({ s with remote := aerase space s.remote } : NodeSt).evictSpaceStreams space (fun _ => true)
 
 def openStream (s : NodeSt) (sid : Nat) (peer ident : String) : NodeSt :=
   { s with pool := s.pool ++ [⟨sid, peer, ident, []⟩] }
